@@ -99,12 +99,12 @@ func writeCompoundPayload(e *Encoder, d *decodeState) error {
 			return d.error(d.scan.errContext)
 		}
 		var tagName string
-		if tt, v, err := parseLiteral(d.data[start:d.readIndex()]); err != nil {
-			return err
-		} else if tt == TagString {
+		if name := d.data[start:d.readIndex()]; name[0] == '"' || name[0] == '\'' {
+			_, v, _ := parseLiteral(name)
 			tagName = v.(string)
 		} else {
-			tagName = string(d.data[start:d.readIndex()])
+			// an unquoted name is taken as it stands, number-like or not
+			tagName = string(name)
 		}
 		// read value
 		if d.opcode == scanSkipSpace {
